@@ -20,6 +20,9 @@ func init() {
 }
 
 func runC16(p *Prog, r *Report) {
+	if want("C16.9") {
+		ruleOptGetters(p, r, "C16.9", "the filter policy and its base", "Options.GetFilter", "Options.GetAltFilters", "Options.GetFilterBaseLg")
+	}
 	if want("C16.8") {
 		// every added key is recorded for the next filter
 		ruleFilterAddRecordsEveryKey(p, r, "C16.8")
